@@ -49,6 +49,16 @@ def convert_entry(entry):
         for r in coll.rules:
             for e in r.errors:
                 out["errors"].append(_err(str(r.title), e))
+        # filters applied to the loaded collection in separate apply_filters calls; under plan "each" the random
+        # module is put into the same state before every call (adversarial draw sequence: the same draw comes first)
+        if entry.get("filters_separate"):
+            import random
+            from sigma.filters import SigmaFilter
+            for fdoc in entry["filters_separate"]:
+                fobj = SigmaFilter.from_yaml(fdoc)
+                if DRIVER_PLAN["plan"] == "each":
+                    random.seed(DRIVER_PLAN["rseed"])
+                coll.apply_filters([fobj])
         # rules that failed to load are reported above and left out of the conversion (as a front end would)
         coll.rules = [r for r in coll.rules if not r.errors]
         if entry.get("validators") is not None:
@@ -101,8 +111,12 @@ def convert_entry(entry):
     return out
 
 
-def driver_main(path, rseed):
+DRIVER_PLAN = {"plan": "once", "rseed": 0}
+
+
+def driver_main(path, rseed, plan="once"):
     import random
+    DRIVER_PLAN.update(plan=plan, rseed=rseed * 1000003 + 17)
     corpus = json.load(open(path))
     w = sys.stdout
     for entry in corpus:
@@ -402,6 +416,6 @@ def run_site(case):
 
 if __name__ == "__main__":
     if sys.argv[1] == "--driver":
-        driver_main(sys.argv[2], int(sys.argv[3]))
+        driver_main(sys.argv[2], int(sys.argv[3]), sys.argv[4] if len(sys.argv) > 4 else "once")
     elif sys.argv[1] == "--worker":
         worker_main()
